@@ -29,7 +29,7 @@ Arguments LErr {A} e.
 Definition lbind {A B} (r : lres A) (f : A -> lres B) : lres B :=
   match r with LOk a => f a | LCant => LCant | LErr e => LErr e end.
 Notation "x <- r ;; k" := (lbind r (fun x => k)) (at level 61, r at next level, right associativity).
-Notation "' p <- r ;; k" := (lbind r (fun x => let p := x in k))
+Notation "' p <- r ;; k" := (lbind r (fun x => match x with p => k end))
   (at level 61, p pattern, r at next level, right associativity).
 
 Definition NL : Z := 10.
@@ -178,7 +178,8 @@ Definition step_wrap (t : list Z) (width : Z) (wrap : wrapmode) (segs : list lin
             | ScanErr => LErr IndexError
             | ScanSpace prev =>
                 sc' <- calc_width t idx prev ;;
-                LOk ((if idx =? prev then [SPad 0 prev] else [SText sc' idx prev; SPad 0 prev]) :: segs,
+                (* line = [(0, prev)]; if screen_columns: line = [(screen_columns, idx, prev), *line] *)
+                LOk ((if sc' =? 0 then [SPad 0 prev] else [SText sc' idx prev; SPad 0 prev]) :: segs,
                      prev + 1)
             | ScanWide prev =>
                 (* next_char = move_next_char(text, prev, pos) = prev + 1 *)
@@ -336,12 +337,12 @@ Definition trim_line (t : list Z) (segs : line) (start end_ : Z) : lres line :=
 Definition render_seg (t : list Z) (s : seg) : lres (list Z) :=
   if negb (seg_valid s) then LErr ValueError                              (* LayoutSegment(seg) *)
   else
-    let as_offs offs sc := LOk (if offs =? 0 then spaces sc else if sc =? 0 then [] else spaces sc) in
+    (* if s.end: text[s.offs:s.end]  elif s.text: s.text  elif s.offs: (if s.sc:) spaces  else: spaces
+       -- the last three arms all contribute b"".rjust(s.sc) *)
     match s with
-    | SText sc offs e => if e =? 0 then as_offs offs sc else LOk (slice t offs e)
-    | SIns sc offs [] => as_offs offs sc
-    | SIns sc offs txt => LOk txt
-    | SPad sc offs => as_offs offs sc
+    | SText sc offs e => if e =? 0 then LOk (spaces sc) else LOk (slice t offs e)
+    | SIns sc offs txt => match txt with [] => LOk (spaces sc) | _ => LOk txt end
+    | SPad sc _ => LOk (spaces sc)
     | SShift sc => LOk (spaces sc)
     end.
 
